@@ -482,7 +482,7 @@ class UpdateStep(_EditBase):
         yield "old_trace_and_choice_map_not_written", len(self.cm.writes) == 0 and len(self.old_choices.writes) == 0
 
 
-@contract("genjax.core:Regenerate.__call__", ["C04", "C05", "C09"])
+@contract("genjax.core:Regenerate.__call__", ["C04", "C05", "C09", "C16"])
 class RegenerateStep(_EditBase):
     cases = ["args_only", "with_kwargs", "kwargs_None"]
 
@@ -705,7 +705,7 @@ class FnUpdate(_FnEdit):
             yield "discard_is_the_handlers_discard", d is self.fin.get("discard")
 
 
-@contract("genjax.core:Fn.regenerate", ["C04", "C05", "C09"])
+@contract("genjax.core:Fn.regenerate", ["C04", "C05", "C09", "C16"])
 class FnRegenerate(_FnEdit):
     handler_cls = core.Regenerate
 
